@@ -1,6 +1,7 @@
 package props
 
 import (
+	"os"
 	"bytes"
 	"encoding/binary"
 	"fmt"
@@ -54,6 +55,8 @@ func (c01) Gen(seed uint64, run int, tier string) *Plan {
 		p.Knobs["ops"] = 2
 	}
 	p.Knobs["pivot"] = r.Intn(2)
+	// half of the pivot runs have a chain three deep (root <- child <- grandchild)
+	p.Knobs["deep"] = r.Intn(2)
 	p.Policy = simrt.Policy{Name: "atomic"}
 	if r.Intn(4) == 0 {
 		p.Policy = simrt.Policy{Name: "pct", D: 1 + r.Intn(2), EstSteps: 2000}
@@ -62,6 +65,13 @@ func (c01) Gen(seed uint64, run int, tier string) *Plan {
 	for i := 0; i < n; i++ {
 		k := r.Intn(hKinds)
 		a := Action{Kind: "req", A: k, B: r.Intn(3), C: r.Intn(1 << 16), D: r.Intn(1 << 30), L: []int{r.Intn(2)}}
+		if p.Knobs["pivot"] == 1 && r.Intn(12) == 0 {
+			// tasks are waiting for the agents at the far end of the pivot chain when the root checks in
+			a.Kind = "deeptask"
+		} else if len(cfg.External) > 0 && r.Intn(14) == 0 {
+			// a peer announces a request body on the External-C2 endpoint and stops sending
+			a.Kind = "stall"
+		}
 		if p.Policy.Name != "atomic" && r.Intn(5) == 0 {
 			a.Kind = "race" // a hostile request racing a faithful one for the same agent
 			if r.Intn(3) == 0 {
@@ -87,6 +97,7 @@ type c01State struct {
 	taskN int
 	recorded [][]byte // valid requests seen so far (for mutation / replay)
 	child *world.Demon
+	grand *world.Demon // SMB child of child (chain three deep)
 	svc      *world.ServiceClient // a service that registered one agent type and answers at once
 	svcMagic uint32
 }
@@ -175,6 +186,13 @@ func (c01) Exec(p *Plan, dir string) *Result {
 	}
 	if p.Knob("pivot", 0) == 1 {
 		st.child = linkChild(w, w.Demons[0], st.outstanding(w.Demons[0]), 0x0a0b0c0d, r)
+		if p.Knob("deep", 0) == 1 {
+			g := &world.Demon{ID: 0x0a0b0c0e, Key: randBytes(r, 32), IV: randBytes(r, 16), Meta: genMeta(r, 7)}
+			w.RegisterVia(st.child, g)
+			w.Demons = append(w.Demons, g)
+			st.grand = g
+			res.Probe("chains-three-deep")
+		}
 	}
 	if p.Cfg.Service != nil {
 		sc := w.NewServiceClient("svc")
@@ -195,6 +213,14 @@ func (c01) Exec(p *Plan, dir string) *Result {
 		w.Sim.SetAction(i)
 		if a.Kind == "dup" {
 			st.duplicate(a)
+			continue
+		}
+		if a.Kind == "deeptask" {
+			st.deepTask(a)
+			continue
+		}
+		if a.Kind == "stall" {
+			st.stalledPeer(a)
 			continue
 		}
 		if a.Kind == "opfault" {
@@ -232,6 +258,94 @@ func (c01) Exec(p *Plan, dir string) *Result {
 	res.NonTrivial = res.Probes["requests"] > 0
 	res.finish(w)
 	return res
+}
+
+// deepTask: tasks wait for the agents at the far end of the pivot chain; the root's check-in, which
+// carries them wrapped once per hop, must be answered.
+func (st *c01State) deepTask(a Action) {
+	w, res := st.w, st.res
+	if st.child == nil {
+		return
+	}
+	targets := []*world.Demon{st.child}
+	if st.grand != nil {
+		targets = append(targets, st.grand, st.grand)
+	}
+	for k := 0; k <= a.C%2; k++ {
+		t := targets[(a.D+k)%len(targets)]
+		st.taskN++
+		st.wit.Task(t.NameID(), fmt.Sprintf("%08x", 0x01200000+st.taskN), world.CmdSleep, "sleep", map[string]any{"Arguments": "3;1"})
+	}
+	w.Sim.Settle()
+	probs := len(w.Sim.Problems)
+	// the hostile traffic may have moved the child below another agent (a reconnect reported by
+	// somebody else): every agent that speaks for itself checks in, the chain's first hop among them
+	root := w.Demons[0]
+	for _, d := range w.Demons[1:] {
+		if d.Parent == nil {
+			w.Checkin(d)
+		}
+	}
+	c := w.Send(world.AgentReq{Port: root.Port, URI: root.URI, Body: root.Frame(nil)})
+	reason := w.Sim.Settle()
+	res.Probe("requests")
+	res.Probe("kind-checkin-with-tasks-for-the-chain")
+	res.FP("deeptask", st.grand != nil, a.C%2)
+	if len(w.Sim.Problems) > probs {
+		return
+	}
+	if reason == simrt.Budget || !c.Done {
+		res.Violate("C01", "does-not-terminate", "checkin-with-tasks-for-the-chain", fmt.Sprintf("the check-in of %s, with tasks queued for agents %d hops below it, never completed (blocked on %q)", root.NameID(), len(targets), c.Task.BlockOn), w.Sim)
+		return
+	}
+	if s := c.Rec.Status(); s != 200 {
+		res.Violate("C01", "reply", fmt.Sprintf("chain-checkin-status-%d", s), fmt.Sprintf("the check-in of %s with tasks queued for its pivot chain was answered with status %d", root.NameID(), s), w.Sim)
+	}
+}
+
+// stalledPeer: a peer announces a request body on the External-C2 endpoint and stops sending. Its
+// own request may hang for as long as the server lets it; nobody else's may: a faithful agent's
+// request to the same endpoint has to complete while the first is still stalled (the stall lasts
+// ten virtual minutes; the faithful request gets two, which covers the write deadline of a stalled
+// operator connection its announcements may run into).
+func (st *c01State) stalledPeer(a Action) {
+	w, res := st.w, st.res
+	if len(w.Cfg.External) == 0 {
+		return
+	}
+	d := w.Demons[0]
+	uri := "/" + w.Cfg.External[0].Endpoint
+	r := simrt.NewRand(uint64(a.D) + 5)
+	body := d.Frame(nil)
+	if a.C%2 == 0 {
+		body = randBytes(r, 40+r.Intn(200))
+	}
+	probs := len(w.Sim.Problems)
+	slow := w.Send(world.AgentReq{Port: w.Cfg.Port, URI: uri, Body: body, SlowBody: 10 * time.Minute})
+	w.Sim.Run(nil, false) // until the stalled request waits for the rest of its body
+	res.Probe("requests")
+	res.Probe("kind-stalled-body")
+	res.FP("stall", a.C%2, slow.Done)
+	if slow.Done {
+		// the server gave up on it (or answered from the first half) already
+		return
+	}
+	res.Probe("peer-stalled-mid-body")
+	f := w.Send(world.AgentReq{Port: w.Cfg.Port, URI: uri, Body: d.Frame(nil)})
+	t0 := w.Sim.Now()
+	w.Sim.Run(func() bool { return f.Done || w.Sim.Now().Sub(t0) > 2*time.Minute }, true)
+	if len(w.Sim.Problems) > probs {
+		return
+	}
+	if !f.Done || w.Sim.Now().Sub(t0) > 2*time.Minute {
+		res.Probe("faithful-request-waited-for-stalled-peer")
+		res.Violate("C01", "wedged", "request-behind-stalled-peer", fmt.Sprintf("while a peer stalls in the middle of its request body on External-C2 endpoint %s, a faithful agent's request to the same endpoint does not complete before the stalled one (blocked on %q)", uri, f.Task.BlockOn), w.Sim)
+		return
+	}
+	if s := f.Rec.Status(); s != 200 {
+		res.Violate("C01", "reply", fmt.Sprintf("behind-stalled-peer-status-%d", s), fmt.Sprintf("a faithful request behind a stalled peer was answered with status %d", s), w.Sim)
+	}
+	w.Sim.Settle()
 }
 
 // duplicate: k tasks are queued for an agent, then its check-in arrives two or three times at once.
@@ -316,7 +430,14 @@ func (st *c01State) build(a Action) (body []byte, invalid bool, label string) {
 			b := randBytes(r, 24)
 			return b, st.classify(b), "random-bytes"
 		}
-		b := world.ServiceAgentFrame(st.svcMagic, uint32(0x6000+r.Intn(1<<16)), randBytes(r, r.Intn(200)))
+		id := uint32(0x6000 + r.Intn(1<<16))
+		if r.Intn(3) == 0 {
+			// the id of a Demon session (with or without pivot links): the teamserver hands what it
+			// knows about that session to the service
+			id = w.Demons[r.Intn(len(w.Demons))].ID
+			st.res.Probe("third-party-frames-naming-a-demon")
+		}
+		b := world.ServiceAgentFrame(st.svcMagic, id, randBytes(r, r.Intn(200)))
 		if r.Intn(3) == 0 {
 			b = mutate(r, b)
 		}
@@ -572,6 +693,16 @@ func (st *c01State) request(a Action) {
 	}
 	var before Snap
 	if invalid {
+		if os.Getenv("VERIF_DEBUG") != "" {
+			for _, ag := range w.TS.Agents.Agents {
+				for _, j := range ag.JobQueue {
+					fmt.Fprintf(os.Stderr, "C01 queued before: agent %s cmd=%d rid=%x\n", ag.NameID, j.Command, j.RequestID)
+				}
+			}
+			for i, d := range w.Demons {
+				fmt.Fprintf(os.Stderr, "C01 demon[%d]=%s parent=%v\n", i, d.NameID(), d.Parent != nil)
+			}
+		}
 		before = stateKeys(TakeSnap(w, SnapOpts{LootContent: true}))
 	}
 	probs := len(w.Sim.Problems)
@@ -640,6 +771,17 @@ func (st *c01State) request(a Action) {
 		res.Probe("invalid-requests-checked")
 		after := stateKeys(TakeSnap(w, SnapOpts{LootContent: true}))
 		if d := before.Diff(after); len(d) > 0 {
+			if os.Getenv("VERIF_DEBUG") != "" {
+				for _, k := range d {
+					k = strings.TrimLeft(k, "~+-")
+					fmt.Fprintf(os.Stderr, "C01 diff %s: %q -> %q\n", k, before[k], after[k])
+				}
+				for k, v := range after {
+					if strings.HasSuffix(k, ".id") || strings.HasSuffix(k, ".queue") {
+						fmt.Fprintf(os.Stderr, "C01 after %s=%s\n", k, v)
+					}
+				}
+			}
 			res.Violate("C01", "invalid-request-changed-state", strings.SplitN(label, ":", 2)[0]+":"+effectClass(d), fmt.Sprintf("%s is not valid Demon or service traffic but changed: %s", desc, strings.Join(d, " ")), w.Sim)
 			return
 		}
